@@ -7,10 +7,12 @@ the real parser's leaves (in order) are compared with the token stream of coq/C1
 implementation reports), the evaluated value with the arithmetic over the bound values; then the same name texts in every
 expression position (argument, if / for / some / every / filter sub-expression, context entry, path head) and names introduced by
 context entries, formal parameters and iteration variables.
-White space beyond blank / tab / newline: U+1680, U+180E, U+FEFF (white space and name characters at once for the lexer), U+00A0, U+2003,
-U+3000, U+200B, U+2028, U+0085, U+202F, a byte order mark in front -- inside and around the parts of the bound names (Name::new trims
-White_Space, the model does too: the scope keys of the implementation = name_new of the model on the same part lists) and in the gaps of
-the texts; a bound name written under the reading rule of C10_longest_written must come out as that name."""
+White space beyond blank / tab / newline: U+1680, U+180E, U+FEFF (inside the name character ranges of the grammar; white space and nothing
+else for the lexer since the repair of is_name_start_char), U+00A0, U+2003, U+3000, U+200B, U+2028, U+0085, U+202F, a byte order mark in
+front -- inside and around the parts of the bound names (Name::new trims White_Space, the model does too: the scope keys of the
+implementation = name_new of the model on the same part lists) and in the gaps of the texts; a bound name written with ANY white space in
+its gaps (C10_longest_written) must come out as that name, and a text with the three code points must give the answer of the same text
+with blanks in their place."""
 import json
 import re
 
@@ -22,10 +24,12 @@ HEADER = 'From Coq Require Import List NArith Bool.\nFrom DV Require Import C10.
 WORDS = ['a', 'b', 'c', 'x1', 'Total', 'żółw', 'ν', 'd_2']
 SYMS = ['.', '/', '-', "'", '+', '*']
 VALUES = [1000003, 20011, 307, 41, 5000011, 60013, 709]
-# U+1680, U+180E, U+FEFF: white space AND name characters for the lexer (C10_char_classes); of the three str::trim removes U+1680 only
+# U+1680, U+180E, U+FEFF: white space for the lexer and inside the name character ranges of the grammar (the lexer took them for both until
+# is_name_start_char was repaired: C10_char_classes, _orig_refuted witnesses); of the three str::trim removes U+1680 only
 AMBIG = ['\u1680', '\u180e', '\ufeff']
 # white space for the lexer only; all but U+200B have the Unicode property White_Space (what str::trim in Name::new removes)
 WS_X = ['\u00a0', '\u2003', '\u3000', '\u200b', '\u2028', '\u0085', '\u202f', '\u2000']
+LEXER_WS = set(chr(c) for c in list(range(9, 14)) + [0x20, 0x85, 0xa0, 0x1680, 0x180e] + list(range(0x2000, 0x200c)) + [0x2028, 0x2029, 0x202f, 0x205f, 0x3000, 0xfeff])
 RUST_WS = set(chr(c) for c in list(range(9, 14)) + [0x20, 0x85, 0xa0, 0x1680] + list(range(0x2000, 0x200b)) + [0x2028, 0x2029, 0x202f, 0x205f, 0x3000])
 
 
@@ -207,8 +211,9 @@ X_GAPS = ['\u00a0', '\u2003', '\u3000', '\u200b', ' \u1680', ' \u180e ', '\t\ufe
 
 
 def spell_x(rng, parts, strict=False):
-    """The name written with every kind of white space in the gaps.  strict: the gaps follow the reading rule of the lexer (a gap does not
-    begin with one of the three overlapping code points), so the text is a spelling of the name; otherwise any white space."""
+    """The name written with every kind of white space in the gaps.  strict: the parts as Name::new stores them and a non-empty gap between two
+    words, so the text is a spelling of the name (any white space, the three code points included, at any place of a gap); otherwise the
+    parts with their padding and now and then no gap between two words."""
     out = ''
     for i, p in enumerate(parts):
         p = rust_trim(p) if strict else p.strip(' \t\n')
@@ -216,7 +221,7 @@ def spell_x(rng, parts, strict=False):
             sym = p in SYMS or rust_trim(parts[i - 1]) in SYMS
             g = rng.choice(X_GAPS)
             if strict:
-                while (g and g[0] in AMBIG) or (g == '' and not sym):
+                while g == '' and not sym:
                     g = rng.choice(X_GAPS)
             elif g == '' and not sym and rng.random() < 0.8:
                 g = ' '
@@ -226,21 +231,21 @@ def spell_x(rng, parts, strict=False):
 
 
 def regular(parts):
-    """A name that can be written in a text: every trimmed part is one additional symbol or a word of name characters that does not begin
-    with one of the three overlapping code points (after white space such a code point is white space, at the start of a token too)."""
+    """A name that can be written in a text: every trimmed part is one additional symbol or a word of name characters (no white space of the
+    lexer in it: a part that holds U+1680 / U+180E / U+FEFF / U+200B can be bound through Name::new but not written)."""
     for i, p in enumerate(parts):
         t = rust_trim(p)
         if t in SYMS:
             if i == 0:
                 return False
             continue
-        if not t or t[0] in AMBIG or t[0].isdigit() or any(ch in SYMS or ch in RUST_WS or ch == '\u200b' for ch in t):
+        if not t or t[0].isdigit() or any(ch in SYMS or ch in LEXER_WS for ch in t):
             return False
     return True
 
 
 def gen_text_x(rng, scope):
-    """Texts over a scope with every kind of white space: spellings of the bound names (strict and not), the overlapping code points
+    """Texts over a scope with every kind of white space: spellings of the bound names (strict and not), the three code points
     next to operators, a byte order mark in front, white space behind."""
     n = rng.choice([1, 1, 2, 3])
     out = rng.choice(['', '', '\ufeff', '\u1680', '\u00a0 '])
@@ -407,7 +412,7 @@ def run(ctx):
     scopes += [[['a'], ['a', 'b'], ['a', 'b', 'c']], [['a', 'b'], ['b', 'c'], ['c']], [['Total'], ['Total', 'x1'], ['x1', '-', 'a'], ['a']]]
     for _ in range(ctx.pick(250, 6000)):
         scopes.append(gen_scope(rng))
-    # white space beyond blank / tab / newline, the three code points that are name characters too: in the bound names and in the texts
+    # white space beyond blank / tab / newline, the three code points of the name character ranges: in the bound names and in the texts
     n_plain = len(scopes)
     x_chars = AMBIG + WS_X
     scopes.append([['a'], ['b'], ['a', '+', 'b'], ['a', 'b']])
@@ -426,7 +431,7 @@ def run(ctx):
             texts = [(gen_text_x(rng, sc), None) for _ in range(ctx.pick(4, 8))]
             for q in sc:
                 if regular(q):
-                    # the name written with any white space in its gaps (reading rule of the lexer respected) is that name
+                    # the name written with any white space in its gaps is that name
                     texts.append((rng.choice(['', '\ufeff', ' ']) + spell_x(rng, q, strict=True) + rng.choice(['', ' ', '\u3000']), name_new(q)))
             if six < n_plain + 2:
                 for w in x_chars:
@@ -442,19 +447,21 @@ def run(ctx):
             texts += ['a%sb' % s, 'a %s b' % s, 'a %sb' % s, 'a%s b' % s, 'a%sb%sa' % (s, s), 'b %s a' % s, 'a  %s\tb - a' % s]
         if sc[:2] == [['a'], ['b']] and len(sc) == 2:
             texts += ['a%sb' % s for s in SYMS] + ['a %s b' % s for s in SYMS]
-            # U+1680, U+180E, U+FEFF are white space AND name characters (C10_char_classes): after a name character they continue the word
+            # U+1680, U+180E, U+FEFF are white space (C10_char_classes): they end the word like a blank (the original lexer went on with the word)
             texts += ['a\u1680b', 'a\u180eb', 'a\ufeffb', 'a \u1680b', 'a+\ufeffb']
         for t in texts:
             cases.append({'scope': sc, 'bind': bind, 'env': env, 'text': t, 'six': six})
-    # the witnesses of C10_longest_written_gap_rule_refuted / _word_rule_refuted / C10_reading_nonvacuous against the real parser: the tokens
-    # stated in coq/Props/C10.v are the tokens of the model on this run and the leaves of the real parser
+    # the witnesses of C10_longest_written_gap_rule_orig_refuted / _word_rule_orig_refuted / C10_reading_nonvacuous against the real parser: the
+    # tokens stated in coq/Props/C10.v for the repaired lexer (lex_all) are the tokens of the model on this run and the leaves of the real parser
+    # (the tokens stated there for lex_all_chars_orig are what the parser gave before the repair: a seeded revert is caught here first)
     for sc, t, toks in (
-            ([['a'], ['b'], ['a', 'b']], 'a\u1680b', [('name', 'a\u1680b')]),
-            ([['a'], ['b'], ['a', '+', 'b']], 'a+\u1680 b', [('name', 'a'), ('sym', '+'), ('name', 'b')]),
+            ([['a'], ['b'], ['a', 'b']], 'a\u1680b', [('name', 'a b')]),
+            ([['a'], ['b'], ['a', '+', 'b']], 'a+\u1680 b', [('name', 'a+b')]),
             ([['a'], ['b'], ['a', '+', 'b']], 'a+ \u1680b', [('name', 'a+b')]),
             ([['a'], ['a', '\u180eb']], 'a \u180eb', [('name', 'a'), ('name', 'b')]),
-            ([['a'], ['b'], ['a', 'b']], 'a\u1680  b', [('name', 'a b')]),
-            ([['a'], ['b'], ['a', '+', '\ufeffb']], 'a+\ufeffb', [('name', 'a+\ufeffb')])):
+            ([['a'], ['b'], ['a', 'b']], 'a\u1680 b', [('name', 'a b')]),
+            ([['a'], ['b'], ['a', 'b']], 'a\u180eb', [('name', 'a b')]),
+            ([['a'], ['b'], ['a', '+', 'b']], 'a+\ufeffb', [('name', 'a+b')])):
         scopes.append(sc)
         cases.append({'scope': sc, 'bind': [[p, VALUES[i % len(VALUES)]] for i, p in enumerate(sc)], 'env': {name_new(p): VALUES[i % len(VALUES)] for i, p in enumerate(sc)},
                       'text': t, 'x': True, 'direct': None, 'six': len(scopes) - 1, 'tokens': toks})
@@ -482,7 +489,7 @@ def run(ctx):
     keys_of_scope = {}
     for c in cases:
         keys_of_scope.setdefault(c['six'], sorted(c['keys']))
-    kinds = {'one-name': 0, 'operators': 0, 'rejected': 0, 'unbound': 0, 'white-space-cases': 0, 'written-names': 0, 'other-reading-differs': 0,
+    kinds = {'one-name': 0, 'operators': 0, 'rejected': 0, 'unbound': 0, 'white-space-cases': 0, 'written-names': 0, 'same-as-blanks': 0, 'other-reading-differs': 0,
              'name-new-scopes': 0, 'trimmed-parts': 0, 'comment-or-exponent': 0}
     for six in name_scopes:
         ctx.evaluations += 1
@@ -497,6 +504,22 @@ def run(ctx):
         mk = ''.join(chr(ch) for ch in m)
         if sorted(g.get('keys', [])) != sorted([mk, 'zz']) or mk != rust_trim(t):
             ctx.corr_broken('Name::from(&str)', {'name': t}, g.get('keys'), mk)
+    # white space is white space, on the implementation's own output (no model involved): a text means what the same text with blanks in the
+    # place of U+1680 / U+180E / U+FEFF means -- same tree, same value, same kind of error (fixed in /repo: was 1180 of 2232 texts)
+    for c, g in zip(cases, impl):
+        if not (c.get('x') and any(ch in c['text'] for ch in AMBIG)) or 'panic' in g or 'crash' in g:
+            continue
+        gb = c['blank']
+        if (gb.get('v'), gb.get('err'), gb.get('ast')) != (g.get('v'), g.get('err'), g.get('ast')):
+            kinds['other-reading-differs'] += 1
+            c['differs'] = True
+            if kinds['other-reading-differs'] <= 10:
+                show = ''.join('<U+%04X>' % ord(ch) if ch in AMBIG else ch for ch in c['text'])
+                ctx.violation('`%s` with %s bound gives %s, the same text with blanks in the place of the code points gives %s: white space read as a name character'
+                              % (show, sorted(c['env']), json.dumps(g.get('v', g.get('err'))), json.dumps(gb.get('v', gb.get('err')))),
+                              {'text': c['text'], 'bound': c['scope'], 'blank': True}, impl=g, model=gb)
+        else:
+            kinds['same-as-blanks'] += 1
     good_texts = []
     for c, g, m in zip(cases, impl, model):
         ctx.evaluations += 1
@@ -511,6 +534,8 @@ def run(ctx):
         mt = model_tokens(m)
         ast = g.get('ast')
         lv = leaves(ast) if ast is not None else None
+        if c.get('differs'):
+            continue
         # the property itself, on the implementation's own output: longest bound name at every name position
         if mt is None:
             continue
@@ -540,9 +565,6 @@ def run(ctx):
             continue
         if c.get('x'):
             kinds['white-space-cases'] += 1
-            gb = c['blank']
-            if any(ch in c['text'] for ch in AMBIG) and (gb.get('v'), gb.get('err')) != (g.get('v'), g.get('err')):
-                kinds['other-reading-differs'] += 1      # with the three code points read as blanks the text means something else
         kinds['one-name' if len(mt) == 1 else 'operators'] += 1
         ev = value_of(mt, c['env'])
         if ev is not None:
@@ -605,15 +627,15 @@ def run(ctx):
              'a / b / a<sym>b systematically); texts spell the names with 0..2 spaces or tabs around symbols and between words and join them with + - *; '
              'scopes whose parts carry U+1680 / U+180E / U+FEFF inside, in front or behind, padded with White_Space (blank, tab, U+00A0, U+1680, U+2003, U+3000, U+2028, '
              'U+0085) or with U+200B / U+180E / U+FEFF, with empty and all-white parts; texts with these characters in the gaps, next to the operators, in front (byte order mark) and behind, '
-             'every one of 11 such characters in 17 fixed places of a / b / a+b / a b; every writable bound name written under the reading rule (written-names); '
+             'every one of 11 such characters in 17 fixed places of a / b / a+b / a b; every writable bound name written with any white space in its gaps (written-names); '
              'Name::new and From<&str> of the model against the scope keys of the implementation (name-new-scopes); the witnesses of the _refuted theorems; '
              'then each resolved text in 18 expression positions and names introduced by context entries, parameters, iteration variables; non-trivial = distinct (scope, text); '
-             'other-reading-differs = texts whose meaning changes when the three overlapping code points are replaced by blanks (interpretive class, see NOTES-C10.md)',
+             'same-as-blanks = texts with U+1680 / U+180E / U+FEFF that give the tree, value or error of the same text with blanks in their place; other-reading-differs = those that do not '
+             '(each one a VIOLATION; 0 since the repair of is_name_start_char, see NOTES-C10.md)',
         extra_cov={'outcomes': kinds, 'positions': pk},
         assumptions=['names are bound through Name::new on part lists (normal form); words are not FEEL keywords or literals',
                      'token order is read off the AST leaves in order (tree shape itself is C06)',
-                     'U+1680, U+180E, U+FEFF are read the way the lexer reads them (name characters directly after a name character or an additional symbol, white space after white space: '
-                     'C10_collect_reading); the other reading (always white space) is not asserted: C10_longest_written_gap_rule_refuted, _word_rule_refuted'],
+                     'white space is what is_whitespace of lexer.rs says (30 code points, U+1680 / U+180E / U+FEFF among them); is_name_start of the model = the ranges of grammar rule 28 less these'],
         trusted=['harness sub-command dv ast (scope built programmatically, flattened keys reported)'])
 
 
@@ -629,7 +651,11 @@ def replay(ctx, path):
     m = ctx.run_model(HEADER, ['lex_all [%s] %s' % ('; '.join(coq_str(k) for k in g.get('keys', [])), coq_str(c['text']))])[0]
     mt = model_tokens(m)
     print('model      :', mt)
-    if 'written' in c:
+    if c.get('blank'):
+        gb = ctx.run_impl('ast', [{'bind': bind, 'e': ''.join(' ' if ch in AMBIG else ch for ch in c['text']), 'mode': 'expr', 'eval': True}])[0]
+        print('with blanks:', json.dumps(gb))
+        fail = (gb.get('v'), gb.get('err'), gb.get('ast')) != (g.get('v'), g.get('err'), g.get('ast'))
+    elif 'written' in c:
         fail = mt != [('name', c['written'])] or g.get('ast') is None or leaves(g['ast']) != mt
     elif 'expected' in c:
         got = canon_v(g.get('v')) if 'v' in g else g.get('err', g)
@@ -644,5 +670,5 @@ def replay(ctx, path):
 
 MANIFEST = dict(
     technique='Coq proof (longest-prefix loop of the name lexer, layout invariant of the part collector and uniqueness of the reading, for all key sets and inputs; normaliser agreement; the trim of Name::new) with lexer/model correspondence',
-    text='coq/Props/C10.v: for every set of scope keys and every input the modelled name lexer returns the longest bound prefix of the collected name parts and resumes right after it (else the whole candidate), for both values of the for/some/every flag with the `item` and `in` tweaks characterised exactly (C10_lex_name_cases); for every input the collected parts are non-empty, do not overlap, are separated by white space only, and consumed text ++ rest = input after any chosen prefix, so no character is lost or read twice (C10_parts_disjoint, C10_gaps_whitespace, C10_backtrack_no_loss, C10_lex_name_no_loss); every part is a maximal word or one additional symbol (C10_collect_shape). Longest match on the text, now for EVERY input: the collected parts and gaps are a `reading` of the input (C10_collect_reading: a gap does not begin with a name character, a word behind a gap does not begin with white space -- which only U+1680, U+180E, U+FEFF, white space and name characters at once, could do, C10_char_classes), a reading is unique, so any bound name written at the position under this rule with any white space in its gaps is a prefix of the collected parts and no bound name written there is longer than the token (C10_longest_written, no hypothesis on the characters of the input any more; C10_canon_reading: the former statement is a special case); outside the rule it fails when the code point is taken for white space (C10_longest_written_gap_rule_refuted: `a<U+1680>b` with `a b` bound, `a+<U+1680> b` with `a+b` bound; C10_longest_written_word_rule_refuted; witnesses run against the real parser on every run). name_new of the model is Name::new with its str::trim of every part (Unicode White_Space, not the white space of the lexer: C10_white_space_classes); C10_name_new_trim, C10_trim_collected: on the parts the collector returns the trim removes U+1680 at the two ends and nothing else, on an input without U+1680 nothing; coq/C06/Lexer.v uses this name_new. The two name normalisers are compared. The model (part-collecting state machine, position bookkeeping, back-tracking, Name::new, From<&str>) is tied to lexer.rs / names.rs by comparing token streams, scope keys and evaluated values on generated scopes and spellings with every kind of white space in the names and in the texts, then the resolved names are placed in every expression position and introduced by binders.',
-    note='Trusted: Coq kernel + vm_compute, hand-written model of consume_name / Name::new / flatten_name_parts (correspondence-checked), harness dv ast, arithmetic oracle over the bound integers. Interpretive: the three code points U+1680, U+180E, U+FEFF are name characters and white space in the grammar as in lexer.rs; the check follows the reading of the lexer.')
+    text='coq/Props/C10.v: for every set of scope keys and every input the modelled name lexer returns the longest bound prefix of the collected name parts and resumes right after it (else the whole candidate), for both values of the for/some/every flag with the `item` and `in` tweaks characterised exactly (C10_lex_name_cases); for every input the collected parts are non-empty, do not overlap, are separated by white space only, and consumed text ++ rest = input after any chosen prefix, so no character is lost or read twice (C10_parts_disjoint, C10_gaps_whitespace, C10_backtrack_no_loss, C10_lex_name_no_loss); every part is a maximal word or one additional symbol (C10_collect_shape). Longest match on the text, for EVERY input: no white space character is a name character (C10_char_classes: is_name_start_char = the ranges of the grammar less is_whitespace, repaired in /repo; U+1680, U+180E, U+FEFF were both), the collected parts and gaps are a `reading` of the input (C10_collect_reading: gaps are white space, parts are words = runs of name characters or single additional symbols, a non-empty gap between two words, no name character directly behind a word), a reading is unique, so any bound name written at the position with any white space in its gaps is a prefix of the collected parts and no bound name written there is longer than the token (C10_longest_written: no hypothesis on the characters of the input, no caveat on how a character is read; C10_canon_reading: the rule is the one of the earlier rounds); with the character classes of the code before the repair it failed (C10_longest_written_gap_rule_orig_refuted: `a<U+1680>b` with `a b` bound was an unbound name, `a+<U+1680> b` with `a+b` bound was a + b; C10_longest_written_word_rule_orig_refuted, C10_overlap_reading_orig_refuted; the texts run against the real parser on every run and every generated text with one of the three code points must give the tree, value or error of the same text with blanks in their place). name_new of the model is Name::new with its str::trim of every part (Unicode White_Space, not the white space of the lexer: C10_white_space_classes); C10_name_new_trim, C10_trim_collected: on the parts the collector returns the trim is the identity, for every input; coq/C06/Lexer.v uses this name_new. The two name normalisers are compared. The model (part-collecting state machine, position bookkeeping, back-tracking, Name::new, From<&str>) is tied to lexer.rs / names.rs by comparing token streams, scope keys and evaluated values on generated scopes and spellings with every kind of white space in the names and in the texts, then the resolved names are placed in every expression position and introduced by binders.',
+    note='Trusted: Coq kernel + vm_compute, hand-written model of consume_name / Name::new / flatten_name_parts (correspondence-checked), harness dv ast, arithmetic oracle over the bound integers. The three code points U+1680, U+180E, U+FEFF are name characters and white space in the grammar of the standard; in lexer.rs they are white space only (fixed: is_name_start_char excludes is_whitespace), and the check asserts that reading.')
